@@ -83,18 +83,23 @@ func (m *RWMutex) RUnlock() {
 	m.mu.RUnlock()
 }
 
-// Once replaces sync.Once.
+// Once replaces sync.Once. Under exploration it is modelled by what sync.Once guarantees: callers
+// are serialised (a caller that arrives while f runs waits for it to finish) and the completion of f
+// happens before any Do returns - a critical section under the shim's own Mutex, whose Lock and
+// Unlock are the scheduling points and carry the happens-before edges.
 type Once struct {
 	o    sync.Once
+	mu   Mutex
 	done bool
 }
 
-// Do is a scheduling point; the function runs at most once.
+// Do runs f at most once.
 func (o *Once) Do(f func()) {
-	if rt := active; rt != nil {
-		rt.point(op{kind: opAccess, name: fmt.Sprintf("once@%p", o), write: true})
+	if active != nil {
+		o.mu.Lock()
+		defer o.mu.Unlock()
 		if !o.done {
-			o.done = true
+			defer func() { o.done = true }() // like sync.Once: a panicking f counts as done
 			f()
 		}
 		return
@@ -976,8 +981,7 @@ func explore1(sc Scenario, maxBound int, budget int) (Result, []string) {
 				complete = false
 				return
 			}
-			sc.Setup()
-			x := run(sc.Threads(), prefix, 10000)
+			x := runOne(sc, prefix)
 			res.SkippedReads += x.SkippedReads
 			if len(x.NewlyWritten) > 0 {
 				// the execution is judged before the round is abandoned: a lazily built
@@ -1047,8 +1051,7 @@ func exploreAll1(sc Scenario, budget int) (Result, []string) {
 			complete = false
 			return
 		}
-		sc.Setup()
-		x := run(sc.Threads(), prefix, 10000)
+		x := runOne(sc, prefix)
 		res.SkippedReads += x.SkippedReads
 		if len(x.NewlyWritten) > 0 {
 			judge(sc, x, &res)
@@ -1162,6 +1165,44 @@ func raceClass(r string) string {
 }
 
 // Replay runs one recorded schedule and returns its execution record.
+// Runner, when set, executes one schedule of a scenario somewhere else than in this process (the
+// fresh-process mode of cmd/schedcheck starts a new process per schedule, so that every schedule
+// meets the state a process has before the library has been used at all).
+var Runner func(sc Scenario, prefix []int) *Execution
+
+func runOne(sc Scenario, prefix []int) *Execution {
+	if Runner != nil {
+		return Runner(sc, prefix)
+	}
+	sc.Setup()
+	return run(sc.Threads(), prefix, 10000)
+}
+
+// KnownState returns the probe names / objects the current exploration knows to be written / shared
+// (the checked reductions); SetKnownState installs them in a process that runs one schedule of it.
+func KnownState() (written, shared []string) {
+	for k := range knownWritten {
+		written = append(written, k)
+	}
+	for k := range sharedObjs {
+		shared = append(shared, k)
+	}
+	sort.Strings(written)
+	sort.Strings(shared)
+	return
+}
+
+func SetKnownState(written, shared []string) {
+	knownWritten = map[string]bool{}
+	sharedObjs = map[string]bool{}
+	for _, k := range written {
+		knownWritten[k] = true
+	}
+	for _, k := range shared {
+		sharedObjs[k] = true
+	}
+}
+
 func Replay(sc Scenario, choices []int) *Execution {
 	sc.Setup()
 	return run(sc.Threads(), choices, 10000)
